@@ -34,10 +34,39 @@ def _classify(p: Path):
     return None
 
 
+def _crossing_test(ctx, K, f) -> bool:
+    """The jump search starts exactly when the gap ‖ψ‖² − threshold has gone negative: the only comparison of the gap in
+    sweep_complete is with 0.  A margin (`gap < -ε`) ignores a crossing that ends a step within ε below the threshold;
+    the next step then starts a root search whose bracket does not change sign."""
+    it = Interp(ctx.prog, K, inline=lambda c, r, d: False)
+    bad = None
+    n = 0
+    for p in it.run(f):
+        for c, t in p.cond_log:
+            c0 = strip_typed(c)
+            if c0[0] == "cmp" and c0[1] in ("<", ">=", ">", "<=") and ("norm_gap_before_jump" in show(c0) or "jump_threshold" in show(c0)):
+                n += 1
+                lhs_gap = "jump_threshold" in show(c0[2]) or "norm_gap" in show(c0[2])
+                other = c0[3] if lhs_gap else c0[2]
+                if not is_const(other, 0):
+                    bad = show(c0)[:90]
+                elif c0[1] in ("<=", ">") and lhs_gap:
+                    pass   # gap <= 0 differs from gap < 0 on a set of measure zero only
+    ctx.require(n >= 1, "JUMP: no comparison of the norm gap found in sweep_complete")
+    ctx.ob("JUMP-path", "crossing test is gap < 0", f.loc(), bad is None,
+           "the jump search starts exactly when ‖ψ‖² − threshold is negative" if bad is None else
+           f"sweep_complete tests {bad} instead of `gap < 0`: a crossing that ends a step inside the margin is ignored, and "
+           f"the search started in the next step gets a bracket without a sign change (the root finder asserts, the run aborts)",
+           entry=f.qualname)
+    return bad is None
+
+
 def sweep_complete_paths(ctx) -> None:
     prog = ctx.prog
     K = prog.cls(NOISY)
     f = K.methods["sweep_complete"]
+    if not _crossing_test(ctx, K, f):
+        return
 
     def inline(callee, recv, depth):
         return False
